@@ -124,6 +124,20 @@ func (s *ServerKeyStore) ListKeys() ([]keystore.KeyDescription, error) {
 			return nil, err
 		}
 
+		// A destroyed key stays in the ring as a marker without key data and the ring keeps
+		// pointing at it as "current" until the next key is generated. There is no current key
+		// to use (or to destroy once more) then: do not list one, like ListRotatedKeys does
+		// for destroyed rotated keys.
+		currentState, err := ring.State(currentKeyID)
+		if err != nil {
+			log.WithError(err).WithField("KeyID", descriptions[i].KeyID).Debug("Failed to get state of current key")
+			return nil, err
+		}
+		if currentState == api.KeyDestroyed {
+			log.WithField("KeyID", descriptions[i].KeyID).Debug("Current key of key ring is destroyed, skipping")
+			continue
+		}
+
 		creationTime, err := ring.ValidSince(currentKeyID)
 		if err != nil {
 			log.WithError(err).Debug("Failed to get creation time state by segnum")
